@@ -277,7 +277,7 @@ class Ctx:
         choices: Optional[List[Any]] = None,
         max_paths: int = 200000,
         deadline: Optional[float] = None,
-        solver_timeout_ms: int = 20000,
+        solver_timeout_ms: int = 90000,
     ) -> None:
         assert mode in ("sym", "concrete")
         self.mode = mode
@@ -352,6 +352,9 @@ class Ctx:
         t0 = time.time()
         self.n_queries += 1
         r = self.solver.check(*extra)
+        if r == z3.unknown:
+            # one retry (timeouts under machine load): same query, same state
+            r = self.solver.check(*extra)
         self.solver_s += time.time() - t0
         if r == z3.unknown:
             raise HarnessError(f"solver returned unknown: {self.solver.reason_unknown()}")
